@@ -1,6 +1,9 @@
 package refl
 
 import (
+	"verif/checker/internal/gen"
+	"google.golang.org/protobuf/reflect/protoregistry"
+	"google.golang.org/protobuf/types/descriptorpb"
 	"fmt"
 	"go/ast"
 	"go/constant"
@@ -138,6 +141,11 @@ func RunCoh(c *core.Ctx) {
 	if s2.Err == nil {
 		for _, r := range s2.Results {
 			for _, f := range r.Schema.Files {
+				// comments and source positions are not part of the schema: protoc-gen-go embeds the descriptor without them
+				if f.SourceCodeInfo != nil {
+					f = proto.Clone(f).(*descriptorpb.FileDescriptorProto)
+					f.SourceCodeInfo = nil
+				}
 				reqByName[r.Schema.Name+"|"+f.GetName()] = f
 			}
 		}
@@ -151,6 +159,28 @@ func RunCoh(c *core.Ctx) {
 		}
 		for _, e := range g.Enums {
 			goTypeOf[g.Source+"|"+string(e.Desc.FullName())] = tq(e.Named)
+		}
+	}
+	// Go package that holds each schema file, per source set: the analysed package that embeds its descriptor, else
+	// (a file the request did not ask to generate) the go_package the request gives it
+	depGoPkg := map[string]string{}
+	if s2.Err == nil {
+		for _, r := range s2.Results {
+			for _, f := range append(append([]*descriptorpb.FileDescriptorProto{}, r.Schema.ExtraDeps...), r.Schema.Files...) {
+				depGoPkg["S2:"+r.Schema.Name+"|"+f.GetName()] = f.GetOptions().GetGoPackage()
+			}
+		}
+	}
+	if rp := c.Pkg(""); rp != nil {
+		if raws, _, err := gen.RawDescs(rp.Syntax, rp.TypesInfo); err == nil {
+			for _, fd := range raws {
+				depGoPkg["S1|"+fd.GetName()] = rp.PkgPath
+			}
+		}
+	}
+	for _, g := range sources(c) {
+		for _, fdp := range g.RawVars {
+			depGoPkg[g.Source+"|"+fdp.GetName()] = g.Types.Path()
 		}
 	}
 	for _, g := range sources(c) {
@@ -170,6 +200,69 @@ func RunCoh(c *core.Ctx) {
 				c.Ok("COH.rawdesc", con, "embedded descriptor parses and links ("+fdp.GetName()+")", "", src)
 				checkProtoSource(c, g, v, fdp)
 			}
+		}
+		// ---- COH.imports: the Go package of every (non-weak) import of the schema is linked in — imported by the
+		// generated file, by name or blank — so that the dependency is registered whenever this file is
+		schemaParam := ""
+		if sc := s2.SchemaOf[g.Types.Path()]; sc != nil {
+			schemaParam = sc.Param
+		}
+		for v, fdp := range g.RawVars {
+			var file *ast.File
+			for _, f := range g.Files {
+				for _, d := range f.Decls {
+					if gd, ok := d.(*ast.GenDecl); ok && gd.Tok == token.VAR {
+						for _, sp := range gd.Specs {
+							for _, n := range sp.(*ast.ValueSpec).Names {
+								if n.Name == v {
+									file = f
+								}
+							}
+						}
+					}
+				}
+			}
+			if file == nil {
+				continue
+			}
+			imported := map[string]bool{}
+			for _, im := range file.Imports {
+				if p, err := strconv.Unquote(im.Path.Value); err == nil {
+					imported[p] = true
+				}
+			}
+			weak := map[int32]bool{}
+			for _, w := range fdp.WeakDependency {
+				weak[w] = true
+			}
+			var missing []string
+			n := 0
+			for i, dep := range fdp.Dependency {
+				if weak[int32(i)] {
+					continue
+				}
+				gp := depGoPkg[src+"|"+dep]
+				if gp == "" {
+					if fd, err := protoregistry.GlobalFiles.FindFileByPath(dep); err == nil && strings.HasPrefix(dep, "google/protobuf/") {
+						if o, ok := fd.Options().(*descriptorpb.FileOptions); ok {
+							gp = o.GetGoPackage()
+						}
+					}
+				}
+				if k := strings.Index(gp, ";"); k >= 0 {
+					gp = gp[:k]
+				}
+				// an M parameter can rename the dependency's Go package: not followed here (GEN.types covers that request)
+				if gp == "" || strings.Contains(schemaParam, "M"+dep+"=") {
+					continue
+				}
+				n++
+				if gp != g.Types.Path() && !imported[gp] {
+					missing = append(missing, dep+" ("+gp+")")
+				}
+			}
+			c.Check(len(missing) == 0, "COH.imports", g.Name+" "+v, fmt.Sprintf("the Go packages of all %d schema imports are the file's own or imported by it", n),
+				"schema imports whose Go package the generated file does not import (the dependency may be missing from the binary): "+strings.Join(missing, ", "), "", src)
 		}
 		// ---- per file tables
 		for v, fdesc := range g.FileDescs {
